@@ -361,6 +361,20 @@ def make_harness(model_bytes, recipe, key, n):
                   same_as_snapshot(r1, snap), info=[key, 'resume same object'])
           stats_equal(e, 'C09.history.resume_on_same_quantizer_equals_single_pass',
                       r2, want, f'{key} n={n} cut={cut} same object')
+        # sessions over DIFFERENT signatures: a result that only covers
+        # another signature is continued with this one (its entries for this
+        # signature's tensors are still empty)
+        others = [k for k, _ in signatures(model) if k != key]
+        if others:
+          r_o = calibrate(model_bytes, recipe, others[0], ks)
+          snap_o = snapshot(r_o)
+          for rep in (1, 2):  # the same previous result continued twice
+            r2 = calibrate(model_bytes, recipe, key, ks, previous=r_o)
+            e.check('C09.resume.previous_result_not_modified',
+                    same_as_snapshot(r_o, snap_o),
+                    info=[key, f'previous result covers {others[0]}', rep])
+            stats_equal(e, 'C09.history.continuing_another_signatures_result',
+                        r2, want, f'{key} after {others[0]} n={n} #{rep}')
       except Inconclusive:
         raise
       except Exception as ex:  # pylint: disable=broad-except
@@ -578,6 +592,44 @@ def replay(c):
   except Exception as ex:  # pylint: disable=broad-except
     bad.append(f'history: calibrate on a used Quantizer raises '
                f'{type(ex).__name__}: {ex}')
+  others = [(k, s) for k, s in signatures(model) if k != key]
+  if others and not bad:
+    try:
+      ok_, sdo = others[0]
+      sgo = model.subgraphs[sdo.subgraphIndex]
+      odata = []
+      for k in range(n):
+        s = {}
+        for tm in sdo.inputs:
+          t = sgo.tensors[tm.tensorIndex]
+          nm = tm.name.decode() if isinstance(tm.name, bytes) else tm.name
+          s[nm] = (rng.normal(size=tuple(t.shape)) * (k + 2)).astype(
+              np.float32) if t.type == 0 else rng.integers(
+                  0, 2, size=tuple(t.shape)).astype(fakeinterp.NP[t.type])
+        odata.append(s)
+      r_o = quantizer_lib.Quantizer(mb, copy.deepcopy(recipe)).calibrate(
+          odata, ok_)
+      before = copy.deepcopy(r_o)
+      for rep in (1, 2):
+        r2 = quantizer_lib.Quantizer(mb, copy.deepcopy(recipe)).calibrate(
+            data, key, r_o)
+        for k in before:
+          if set(before[k]) != set(r_o[k]) or any(
+              not np.array_equal(np.asarray(before[k][kk]),
+                                 np.asarray(r_o[k][kk])) for kk in before[k]):
+            bad.append(f'history: previous result (of signature {ok_}) '
+                       f'modified at {k}')
+            break
+        for nm, (mn, mx) in cur.items():
+          if nm not in r2 or not (
+              np.array_equal(np.asarray(r2[nm].get('min')), mn)
+              and np.array_equal(np.asarray(r2[nm].get('max')), mx)):
+            bad.append(f'history: continuing the result of signature {ok_} '
+                       f'(#{rep}): {nm} differs from the true statistics')
+            break
+    except Exception as ex:  # pylint: disable=broad-except
+      bad.append(f'history: continuing another signature raises '
+                 f'{type(ex).__name__}: {ex}')
   return bool(bad), 'statistics: ' + (bad[0].split(':')[0] if bad else ''), (
       f"skeleton={d['skeleton']} recipe={d['recipe']} signature={key} "
       f'n={n}: {bad[:3]}')
